@@ -209,6 +209,20 @@ HdrPos(b, w, what) ==
       base == IF w = "seq" THEN 1 ELSE IF w = "r" THEN 3 ELSE 5 + lr
   IN IF what = "tag" THEN base ELSE base + 1
 
+(* adversarial candidates: integers and a digest constructed so that EVERY test of 32918.2 7.1 passes except one - the    *)
+(* range of r (r = 0, r = n), the range of s (s = 0, s = n), or t = (r + s) mod n # 0 - by solving the final equation for  *)
+(* the digest: e = r - x1, (x1, y1) = [s]G + [t]Q.  A verifier that lost that one test accepts them.                        *)
+AdvKinds == {"t0", "r0", "rn", "s0", "sn"}
+AdvCand(c, kind, aux) ==
+  LET nm == kind[2]
+      v == IF kind[3] = 1 THEN <<1>> ELSE IF kind[3] = 2 THEN <<2>> ELSE aux.s          \* in 1..n-1
+      r == IF nm = "t0" THEN BN!Sub(S!N, v) ELSE IF nm = "r0" THEN <<>> ELSE IF nm = "rn" THEN S!N ELSE v
+      s == IF nm \in {"t0", "r0", "rn"} THEN v ELSE IF nm = "s0" THEN <<>> ELSE S!N
+      t == BN!AddMod(r, s, S!N)
+      pt == S!Ec!Add(S!Ec!Mul(BN!Mod(s, S!N), S!G), S!Ec!Mul(t, c.pub))
+      e == IF pt = S!Ec!Inf THEN S!F32(<<>>) ELSE S!F32(BN!SubMod(r, pt[1], S!N))
+  IN [WithInts(c, kind, FALSE, r, FALSE, s) EXCEPT !.gm = FALSE, !.e = e]
+
 CtxKinds == {"otherkey", "negpub", "othermsg", "msgflip", "msgappend", "msgtrunc", "otheruid", "uid_explicit", "digflip"}
 (* kinds after which the candidate is still the signer's own signature on the same (key, uid, msg) *)
 Benign(kind) == kind[1] = "none" \/ (kind[1] = "ctx" /\ kind[2] = "uid_explicit")
@@ -226,6 +240,7 @@ Mutated(c, kind, aux) ==
      ELSE IF cl = "ints" THEN LET v == IntMut(c.s, nm) IN WithInts(c, kind, FALSE, c.r, v[1], v[2])
      ELSE IF cl = "enc" THEN WithBytes(c, kind, ReEnc(c.r, c.s, nm))
      ELSE IF cl = "forge" THEN WithInts(c, kind, FALSE, aux.r, FALSE, aux.s)
+     ELSE IF cl = "adv" THEN AdvCand(c, kind, aux)
      ELSE IF nm = "otherkey" THEN WithCtx(c, kind, aux.pub, c.uid, c.msg)
      ELSE IF nm = "negpub" THEN WithCtx(c, kind, S!Ec!Neg(c.pub), c.uid, c.msg)
      ELSE IF nm = "othermsg" THEN WithCtx(c, kind, c.pub, c.uid, aux.msg)
